@@ -11,9 +11,9 @@ for n in $names; do
   git -C "$REPO" status --short | grep -q . && { echo "$REPO not clean"; exit 2; }
   git -C "$REPO" apply "$V/seeded/$n/patch.diff" || { echo "$n patch-does-not-apply"; continue; }
   t0=$(date +%s)
-  out=$(VERIF_ALLOW_MISSING=1 timeout 3000 python3 scripts/check.py $cid --tier quick 2>&1 | grep -E "^(VIOLATION|OK)" | tr '\n' ';' | cut -c1-400)
+  out=$(VERIF_EVIDENCE_SUFFIX=.mut VERIF_ALLOW_MISSING=1 timeout 3000 python3 scripts/check.py $cid --tier quick 2>&1 | grep -E "^(VIOLATION|OK)" | tr '\n' ';' | cut -c1-400)
   t1=$(date +%s)
-  kind=$(python3 - "$V/evidence/$cid.json" <<'PY'
+  kind=$(python3 - "$V/evidence/$cid.mut.json" <<'PY'
 import json,sys
 try:
     ev=json.load(open(sys.argv[1])); c=ev['coverage']; co=c.get('correspondence',{})
